@@ -373,7 +373,7 @@ pub fn run(args: &Args, seed: u64, tier: &str, report: &Report) -> String {
     let threads = args.u64("--threads", 16) as usize;
     let body = |shard: usize| {
         let mut l = Local::default();
-        let mut rng = Rng::new(seed, 8000 + shard as u64);
+        let mut rng = Rng::new(seed + args.u64("--seed-add", 0), 8000 + shard as u64);
         let mut next_id = (shard as u64) << 40;
         for h in 0..histories / threads as u64 {
             let n_ops = 50 + rng.below(max_ops as u64) as usize;
